@@ -147,7 +147,8 @@ def _close(w, err):
 
 def _box_env(rec, sc):
     # asymmetric, per-dimension different bounds
-    return ScriptEnv(rec, sc["script"], low=sc.get("low", (-1.0, -0.5)), high=sc.get("high", (2.0, 0.25)))
+    return ScriptEnv(rec, sc["script"], low=sc.get("low", (-1.0, -0.5)), high=sc.get("high", (2.0, 0.25)),
+                     act_dtype=np.float64 if sc.get("act_dtype") == "float64" else np.float32)  # coordinator: scenario C declares float64 actions
 
 
 def _run(rec, call):
